@@ -22,10 +22,10 @@ na = [dict(property_id=p, reason=NOT_APPLICABLE[p]) for p in ids if p not in CLA
 assert all(p in NOT_APPLICABLE for p in ids if p not in CLAIMS)
 m = dict(version=1, setup_cmd="python3 -m compileall -q vlib units tools claims.py check >/dev/null 2>&1; true",
     hooks=dict(guard="BOOSTORG_MSM_VERIF", enable="no source hook is needed: units are extracted from the headers, replay programs use the public API", 
-               baseline_off_cmd="ctest --test-dir /repo/_build -j8 --timeout 900", source_commits=FIX_COMMITS, add_only=True),
+               baseline_off_cmd="ctest --test-dir /repo/_build -j8 --timeout 900", source_commits=[], add_only=True),      # no hook / instrumentation commit exists in /repo: nothing is guarded, nothing is added
     engines=[dict(name="cbmc-contracts", path="check", serves_properties=[c['property_id'] for c in checks],
                   kind_free_text="cxx2c token-level extractor (vlib/cxx2c.py) + contracts (contracts/*.spec.h) + goto-cc/goto-instrument --dfcc/cbmc; native replay families (replay/*.cpp) for witnesses and assumption monitors")],
     checks=checks, not_applicable=na,
-    notes="Exit codes: 0 all obligations discharged (KNOWN-FINDING lines allowed), 1 VIOLATION, 2 undecided (timeout, extraction drift, unmodelled callee) - never printed as a violation. See DESIGN.md.")
+    notes="Exit codes: 0 all obligations discharged (KNOWN-FINDING lines allowed), 1 VIOLATION, 2 undecided (timeout, extraction drift, unmodelled callee) - never printed as a violation. No hooks: /repo carries no instrumentation commit (hooks.source_commits is empty). Commits of this work in /repo are repairs of genuine defects only, each an unguarded 'fix:' commit validated with the unedited test-suite: " + ", ".join(FIX_COMMITS) + " (recorded as 'fixed:' lines in known_findings.txt; DESIGN.md section 11). See DESIGN.md.")
 json.dump(m, open(os.path.join(VERIF, 'MANIFEST.json'), 'w'), indent=1)
 print("MANIFEST.json: %d checks, %d not_applicable" % (len(checks), len(na)))
